@@ -67,7 +67,11 @@ def impl(case) -> str:
         # re-entrant application: the hooks may write synchronously (a push producer resumed / paused in the hook)
         depth = 0
 
-        def _hook(self, script):
+        calls = None
+
+        def _hook(self, script, which):
+            self.calls = self.calls or {"+": 0, "-": 0}
+            self.calls[which] += 1
             if self.depth >= 6:
                 events.append("!deep")
                 return
@@ -76,6 +80,10 @@ def impl(case) -> str:
                 for h in script:
                     if h[0] == "w":
                         self.write(bytes.fromhex(h[1]))
+                    elif h[0] == "l":
+                        # ["l"]: loseConnection() on every invocation; ["l", k]: on the k-th invocation only
+                        if len(h) == 1 or h[1] == self.calls[which]:
+                            self.loseConnection()
                     else:
                         self.writeExtended(h[1], bytes.fromhex(h[2]))
             finally:
@@ -83,11 +91,11 @@ def impl(case) -> str:
 
         def stopWriting(self):
             events.append("-")
-            self._hook(case.get("stop_hook") or [])
+            self._hook(case.get("stop_hook") or [], "-")
 
         def startWriting(self):
             events.append("+")
-            self._hook(case.get("start_hook") or [])
+            self._hook(case.get("start_hook") or [], "+")
 
     conn = connection.SSHConnection()
     conn.transport = Transport()
@@ -135,7 +143,11 @@ def impl(case) -> str:
 
 def oracle(case, obs):
     f = _oracle(case, obs)
-    if f is not None and case.get("stop_hook") and "-" in obs:
+    if f is not None and f.tag == "close-not-sent" and any(h[0] == "l" for h in case.get("stop_hook") or []) \
+            and not any(h[0] in "wx" for h in case["stop_hook"]):
+        f.reason = "[loseConnection() called from stopWriting()] " + f.reason
+        f.tag = "close-request-lost-during-extbuf-flush"
+    elif f is not None and any(h[0] in "wx" for h in case.get("stop_hook") or []) and "-" in obs:
         # writes made from inside stopWriting(): known finding (the hook runs before write()/writeExtended() have
         # accounted for the bytes they are about to send)
         f.reason = "[stopWriting() hook writes] " + f.reason
@@ -158,6 +170,7 @@ def _oracle(case, obs):
     want_close = False              # loseConnection() called or CLOSE received
     rclosed = False
     zs = 0
+    ncalls = {"+": 0, "-": 0}
     for k, (op, evs) in enumerate(zip(ops, per)):
         where = f"op {k} {op} -> {evs}: "
         es = [] if evs == "." else evs.split(",")
@@ -244,11 +257,15 @@ def _oracle(case, obs):
                                    "closed-callback")
             elif c in "+-":
                 # the hook writes synchronously: its data is handed to write()/writeExtended() at this very point
+                ncalls[c] += 1
                 for h in (case.get("start_hook") if c == "+" else case.get("stop_hook")) or []:
                     if closed:
                         break
                     if h[0] == "w":
                         wr += bytes.fromhex(h[1])
+                    elif h[0] == "l":
+                        if len(h) == 1 or h[1] == ncalls[c]:
+                            want_close = True       # loseConnection() from inside the hook (last element of a script)
                     else:
                         xwr += [(h[1], b) for b in bytes.fromhex(h[2])]
             else:
@@ -323,6 +340,8 @@ def _hook_script(rng, sizes, base):
         n = max(1, rng.choice(sizes))
         d = bytes([base + (i % 2) for i in range(n)]).hex()
         out.append(["w", d] if rng.random() < 0.6 else ["x", rng.choice([1, 2]), d])
+    if rng.random() < 0.2:
+        out.append(["l"] if rng.random() < 0.4 else ["l", rng.choice([1, 2, 2, 3])])      # always the last element
     return out
 
 
@@ -383,7 +402,9 @@ def gen(rng, tier):
         r = rng.random()
         if r < 0.35:
             case["start_hook"] = _hook_script(rng, sizes, 251)
-        elif r < 0.45:
+        elif r < 0.53:
+            case["stop_hook"] = [["l", rng.choice([1, 2, 2, 3, 4])]] if rng.random() < 0.7 else [["l"]]
+        elif r < 0.63:
             case["stop_hook"] = _hook_script(rng, sizes, 253)
             if rng.random() < 0.5:
                 case["start_hook"] = _hook_script(rng, sizes, 251)
@@ -424,6 +445,12 @@ def corpus():
          "ops": [["w", h("abcd")], ["adj", 2], ["adj", 1], ["adj", 9]]},
         {"rw": 0, "rmp": 2, "lw": 8, "lmp": 8, "start_hook": [["x", 1, "fbfc"], ["w", "fb"]],
          "ops": [["x", 1, h("abc")], ["w", h("de")], ["adj", 1], ["adj", 3], ["lose"], ["adj", 9]]},
+        # loseConnection() from the stopWriting() that fires WHILE addWindowBytes re-writes the extBuf entries
+        {"rw": 0, "rmp": 4, "lw": 8, "lmp": 8, "stop_hook": [["l", 2]],
+         "ops": [["x", 1, h("abcdef")], ["adj", 2], ["adj", 20]]},
+        {"rw": 1, "rmp": 2, "lw": 8, "lmp": 8, "stop_hook": [["l", 3]],
+         "ops": [["x", 1, h("abc")], ["x", 2, h("de")], ["adj", 1], ["adj", 1], ["w", h("f")], ["adj", 20]]},
+        {"rw": 0, "rmp": 4, "lw": 8, "lmp": 8, "start_hook": [["w", "fb"], ["l"]], "ops": [["w", h("abc")], ["adj", 9]]},
         # known finding: writing from inside stopWriting()
         {"rw": 4, "rmp": 10, "lw": 8, "lmp": 8, "stop_hook": [["x", 1, "fdfe"]], "ops": [["w", h("abcdefgh")], ["adj", 20]]},
         {"rw": 4, "rmp": 10, "lw": 8, "lmp": 8, "stop_hook": [["w", "fdfe"]], "ops": [["x", 1, h("abcdefgh")], ["adj", 20]]},
@@ -460,7 +487,8 @@ def _op(o):
 
 
 def to_coq(case):
-    if case["rmp"] < 1 or case["lw"] < 1 or case["lmp"] < 1 or case.get("stop_hook"):
+    if case["rmp"] < 1 or case["lw"] < 1 or case["lmp"] < 1 or case.get("stop_hook") \
+            or any(h[0] == "l" for h in case.get("start_hook") or []):
         return None         # writes from inside stopWriting() are outside the modelled fragment (known finding)
     hook = coq_list([f"HWrite {_hx(h[1])}" if h[0] == "w" else f"HWriteExt {h[1]}%N {_hx(h[2])}"
                      for h in case.get("start_hook") or []], "hop")
